@@ -6,7 +6,7 @@ import (
 
 // C10: render -> parse -> render preserves the message.
 
-var hxC10Shapes = []string{"plain", "html", "plain+html", "plain+attachment", "plain+embed", "alternative+attachment"}
+var hxC10Shapes = []string{"plain", "html", "plain+html", "plain+attachment", "plain+embed", "alternative+attachment", "alternative+embed", "plain+embed+attachment", "alternative+embed+attachment"}
 
 type hxFileSpec struct {
 	name string
@@ -104,9 +104,23 @@ func HarnessC10RoundTrip() {
 		addPart(TypeTextPlain, body)
 		_ = m.EmbedReader(string(fname), &hxRd{data: fileData})
 		files = append(files, hxFileSpec{string(fname), fileData, 1})
-	default:
+	case 5:
 		addPart(TypeTextPlain, body)
 		addPart(TypeTextHTML, html)
+		_ = m.AttachReader(string(fname), &hxRd{data: fileData})
+		files = append(files, hxFileSpec{string(fname), fileData, 2})
+	case 6:
+		addPart(TypeTextPlain, body)
+		addPart(TypeTextHTML, html)
+		_ = m.EmbedReader(string(fname), &hxRd{data: fileData})
+		files = append(files, hxFileSpec{string(fname), fileData, 1})
+	default:
+		addPart(TypeTextPlain, body)
+		if shape == 8 {
+			addPart(TypeTextHTML, html)
+		}
+		_ = m.EmbedReader("logo.png", &hxRd{data: []byte("embedded \x89PNG bytes")})
+		files = append(files, hxFileSpec{"logo.png", []byte("embedded \x89PNG bytes"), 1})
 		_ = m.AttachReader(string(fname), &hxRd{data: fileData})
 		files = append(files, hxFileSpec{string(fname), fileData, 2})
 	}
